@@ -3,7 +3,7 @@ import os, sys, random
 
 
 def scenarios():
-    return ['vq-euclid', 'vq-cosine', 'vq-heads-sep', 'vq-expiry', 'vq-kmeans', 'rvq-layers-dropout', 'rvq-shared', 'lfq']
+    return ['vq-euclid', 'vq-cosine', 'vq-heads-sep', 'vq-expiry', 'vq-cosine-expiry', 'vq-cosine-heads-expiry', 'vq-kmeans', 'vq-cosine-kmeans-expiry', 'rvq-cosine-shared', 'rvq-layers-dropout', 'rvq-shared', 'lfq']
 
 
 def build(name, sync=True):
@@ -16,6 +16,14 @@ def build(name, sync=True):
         return VectorQuantize(dim=4, codebook_size=5, heads=2, codebook_dim=2, separate_codebook_per_head=True, decay=0.25, sync_codebook=sync), 4
     if name == 'vq-expiry':
         return VectorQuantize(dim=3, codebook_size=12, decay=0.25, threshold_ema_dead_code=2, sync_codebook=sync), 3
+    if name == 'vq-cosine-expiry':
+        return VectorQuantize(dim=3, codebook_size=12, decay=0.25, use_cosine_sim=True, threshold_ema_dead_code=2, sync_codebook=sync), 3
+    if name == 'vq-cosine-heads-expiry':
+        return VectorQuantize(dim=4, codebook_size=8, heads=2, codebook_dim=2, separate_codebook_per_head=True, use_cosine_sim=True, decay=0.25, threshold_ema_dead_code=2, sync_codebook=sync), 4
+    if name == 'vq-cosine-kmeans-expiry':
+        return VectorQuantize(dim=3, codebook_size=8, kmeans_init=True, kmeans_iters=2, use_cosine_sim=True, decay=0.25, threshold_ema_dead_code=2, sync_codebook=sync), 3
+    if name == 'rvq-cosine-shared':
+        return ResidualVQ(dim=3, num_quantizers=2, codebook_size=8, decay=0.5, shared_codebook=True, use_cosine_sim=True, threshold_ema_dead_code=1, sync_codebook=sync), 3
     if name == 'vq-kmeans':
         return VectorQuantize(dim=3, codebook_size=4, kmeans_init=True, kmeans_iters=3, decay=0.5, sync_codebook=sync), 3
     if name == 'rvq-layers-dropout':
